@@ -617,6 +617,7 @@ fn verdict_position() -> BoxedStrategy<String> {
     };
     prop_oneof![
         3 => gen::terminal_biased(),
+        3 => gen::terminal_atlas(),
         1 => gen::smother_theme(),
         2 => (gen::pre_terminal(), 0u8..8).prop_map(|(fen, k)| {
             let mut p = Pos::from_fen(&fen).unwrap();
@@ -1027,7 +1028,7 @@ impl Prop for C19Positions {
 
 // ------------------------------------------------------------------------------ C18
 
-pub const C18_RULE: &str = "positions from the set-up themes, reachable walks and material-extreme set-ups (bare kings up to nine queens / ten rooks, bishops or knights a side within legal material), castling rights dropped (the rotation does not preserve castling geometry), both sides to move: metamorphic relation T = swap colours + rotate 180 degrees (square i -> 63-i, ep target mirrored): board_material_score(T(P)) == -board_material_score(P) and, for every remaining depth d in a generated set plus 0 and 255, score(T(P), other side, d) == -score(P, side, d); |board_material_score(P)| strictly below |mate score| for every d in 0..=255 and both colours (mate scores read from evaluate::score on mated boards); mate scores strictly monotone in d in the mating side's favour; stalemate scores 0; no arithmetic overflow (overflow checks on). Non-trivial = P differs from T(P) up to sign (asymmetric), or material-extreme (>= 3 queens a side), or terminal; distinct = position fingerprint.";
+pub const C18_RULE: &str = "positions from the set-up themes, reachable walks and material-extreme set-ups (bare kings up to nine queens / ten rooks, bishops or knights a side within legal material) and a terminal atlas (mates by a single pawn, knight, bishop, rook or queen and stalemates constructed for every king square and both colours), castling rights dropped (the rotation does not preserve castling geometry), both sides to move: metamorphic relation T = swap colours + rotate 180 degrees (square i -> 63-i, ep target mirrored): board_material_score(T(P)) == -board_material_score(P) and, for every remaining depth d in a generated set plus 0 and 255, score(T(P), other side, d) == -score(P, side, d); |board_material_score(P)| strictly below |mate score| for every d in 0..=255 and both colours (mate scores read from evaluate::score on mated boards); mate scores strictly monotone in d in the mating side's favour; stalemate scores 0; no arithmetic overflow (overflow checks on). Non-trivial = P differs from T(P) up to sign (asymmetric), or material-extreme (>= 3 queens a side), or terminal; distinct = position fingerprint.";
 
 fn mated_board(white_mated: bool) -> Pos {
     // back-rank mate
@@ -1109,6 +1110,7 @@ impl Prop for C18Positions {
                 3 => gen::placement(28).prop_map(move |r| strip(gen::build(&r))),
                 2 => gen::cage_theme().prop_map(move |r| strip(gen::build(&r))),
                 2 => gen::terminal_biased(),
+                3 => gen::terminal_atlas(),
                 2 => gen::endgame(5).prop_map(move |r| strip(gen::build(&r))),
                 1 => gen::ep_theme().prop_map(move |r| strip(gen::build(&r))),
                 3 => gen::walk(80).prop_map(move |w| strip(gen::walk_end(&w))),
@@ -1138,6 +1140,29 @@ impl Prop for C18Positions {
         }
         if terminal {
             labels.push(if pos.in_check(pos.side) { "checkmate" } else { "stalemate" });
+            if let Some(ks) = pos.king_sq(pos.side) {
+                let checkers: Vec<P> = (0..64u8)
+                    .filter_map(|sq| match pos.sq[sq as usize] {
+                        Some((k, c)) if c != pos.side && pos.piece_attacks(sq, k, c, ks) => Some(k),
+                        _ => None,
+                    })
+                    .collect();
+                if checkers.len() == 1 {
+                    labels.push(match checkers[0] {
+                        P::Pawn => "mate-by-a-single-pawn",
+                        P::Knight => "mate-by-a-single-knight",
+                        P::Bishop => "mate-by-a-single-bishop",
+                        P::Rook => "mate-by-a-single-rook",
+                        _ => "mate-by-a-single-queen",
+                    });
+                }
+                let (f, r) = (ks % 8, ks / 8);
+                if (f == 0 || f == 7) && (r == 0 || r == 7) {
+                    labels.push("terminal-king-in-a-corner");
+                } else if f > 0 && f < 7 && r > 0 && r < 7 {
+                    labels.push("terminal-king-off-the-edge");
+                }
+            }
         }
         for l in &labels {
             st.label(l);
